@@ -336,7 +336,17 @@ func (g *cgGraph) derive() bool {
 		g.add(&cgExpr{fo: "[(Non ()); " + o.fo + "]", ty: cgCon("[]", cgCon("Opt", f)), ground: cgCon("[]", cgCon("Opt", e.ground)), eqs: cgJoin(o.eqs, [][2]*cgTy{{cgCon("Opt", f), o.ty}})}, o)
 	case 15: // calls of user functions: annotated (idInt, tagStr) and generic, inferred (dup, pick):
 		// every use of a generic function is instantiated on its own
-		switch g.r.Intn(4) {
+		switch g.r.Intn(5) {
+		case 4: // a generic user function called with a PARTIAL explicit type-argument list
+			if !isG(e.ground, "int") {
+				return false
+			}
+			o := g.pool[g.r.Intn(len(g.pool))]
+			if o == e && e.once {
+				return false
+			}
+			g.add(&cgExpr{fo: "(tagAny<int> " + e.fo + " " + o.fo + ")", ty: cgCon("*", cgCon("int"), o.ty), ground: cgCon("*", cgCon("int"), o.ground),
+				eqs: cgJoin(e.eqs, o.eqs, [][2]*cgTy{{e.ty, cgCon("int")}})}, e, o)
 		case 0:
 			if !isG(e.ground, "int") {
 				return false
@@ -613,7 +623,7 @@ func vC02Graph(seed int64, count int, extra []string) {
 		r := rand.New(rand.NewSource(seed*7919 + int64(i)))
 		name := fmt.Sprintf("g%d", i)
 		body, oin, np := c02GraphGen(r, name)
-		src := "package main\n\nimport frt\nimport slice\n\ntype Pr<A, B> = {PA: A; PB: B}\n\ntype Opt<T> =\n  | Som of T\n  | Non\n\nlet idInt (a:int) =\n  a\n\nlet tagStr (n:int) (s:string) =\n  (n, s)\n\nlet dup x =\n  (x, x)\n\nlet pick (c:bool) a b =\n  if c then a else b\n\n" + body
+		src := "package main\n\nimport frt\nimport slice\n\ntype Pr<A, B> = {PA: A; PB: B}\n\ntype Opt<T> =\n  | Som of T\n  | Non\n\nlet idInt (a:int) =\n  a\n\nlet tagStr (n:int) (s:string) =\n  (n, s)\n\nlet dup x =\n  (x, x)\n\nlet tagAny a b =\n  (a, b)\n\nlet pick (c:bool) a b =\n  if c then a else b\n\n" + body
 		goSrc, err := vTranspilePkg(src)
 		vstat("graphs")
 		vstat("params." + strconv.Itoa(np))
